@@ -441,6 +441,85 @@ fn part2(shard: (usize, usize), tier: Tier, deadline: Instant, res: &mut ShardRe
     out
 }
 
+/// Only in the build with foyer's `serde` feature: types that are encodable *only* through the blanket
+/// bincode implementation (proves the path is the one in use) round-trip and respect buffer limits.
+#[cfg(feature = "serde_path")]
+fn blanket_only(res: &mut ShardResult) -> Vec<(String, String)> {
+    #[derive(Debug, Clone, PartialEq, serde::Serialize, serde::Deserialize)]
+    struct Rec {
+        id: u32,
+        name: String,
+        tags: Vec<u16>,
+        opt: Option<i64>,
+    }
+    let mut out = vec![];
+    for n in 0..40usize {
+        let r = Rec { id: n as u32 * 7919, name: "é".repeat(n), tags: (0..n as u16).collect(), opt: if n % 2 == 0 { None } else { Some(-(n as i64)) } };
+        code_roundtrip(&r, &format!("derived struct #{n}"), &mut out, res);
+        code_small_buffers(&r, &format!("derived struct #{n}"), &mut out, res);
+        code_roundtrip(&(n as u8, n as u64 * 3, format!("t{n}")), &format!("tuple #{n}"), &mut out, res);
+        code_roundtrip(&vec![n as u32; n], &format!("Vec<u32> of {n}"), &mut out, res);
+        code_small_buffers(&vec![n as u32; n], &format!("Vec<u32> of {n}"), &mut out, res);
+        res.add("blanket_only_values", 3);
+    }
+    out
+}
+
+#[cfg(not(feature = "serde_path"))]
+fn blanket_only(_: &mut ShardResult) -> Vec<(String, String)> {
+    vec![]
+}
+
+fn serde_binary() -> std::path::PathBuf {
+    if let Some(p) = std::env::var_os("VERIF_SERDE_BIN") {
+        return p.into();
+    }
+    // <root>/target/release/check -> <root>/target-serde/release/check
+    let exe = std::env::current_exe().unwrap_or_default();
+    let root = exe.parent().and_then(|p| p.parent()).and_then(|p| p.parent()).map(|p| p.to_path_buf()).unwrap_or_default();
+    root.join("target-serde/release/check")
+}
+
+/// Run the same shard of the enumeration in the serde build and merge what it found. A missing or failing
+/// serde build is a machinery error (the worker panics, the coordinator reports exit 2), never a verdict.
+fn serde_part(tier: Tier, shard: (usize, usize), deadline: Instant, res: &mut ShardResult) {
+    let bin = serde_binary();
+    if !bin.exists() {
+        panic!("the serde build of the checks is missing at {}: bin/check C08 builds it", bin.display());
+    }
+    let out = std::env::temp_dir().join(format!("foyer-verif-c08-serde-{}-{}.json", std::process::id(), shard.0));
+    let _ = std::fs::remove_file(&out);
+    let wall = deadline.saturating_duration_since(Instant::now()).as_secs().max(5);
+    let status = std::process::Command::new(&bin)
+        .args(["C08", "--tier", tier.name(), "--wall", &wall.to_string(), "--shard", &format!("{}/{}", shard.0, shard.1), "--shard-out"])
+        .arg(&out)
+        .stdin(std::process::Stdio::null())
+        .status()
+        .expect("spawn the serde build");
+    let bytes = std::fs::read(&out).unwrap_or_else(|_| panic!("the serde build ({status}) wrote no result"));
+    let _ = std::fs::remove_file(&out);
+    let r: ShardResult = serde_json::from_slice(&bytes).expect("result of the serde build");
+    if r.get("blanket_only_values") == 0 && shard.0 == 0 {
+        panic!("the binary at {} was not built with the serde feature", bin.display());
+    }
+    for (k, v) in r.counters.iter() {
+        res.add(&format!("serde_{k}"), *v);
+    }
+    for fp in r.fingerprints.iter() {
+        res.fp(fp ^ 0x5E4D_E000_0000_0001);
+    }
+    res.capped |= r.capped;
+    for n in r.notes {
+        res.notes.insert(format!("serde build: {n}"));
+    }
+    for mut v in r.violations {
+        v.message = format!("[build with foyer's serde feature: bincode path] {}", v.message);
+        v.signature = format!("{}|serde", v.signature);
+        v.witness["serde_path"] = json!(true);
+        res.violations.push(v);
+    }
+}
+
 impl Prop for C08Prop {
     fn id(&self) -> &'static str {
         "C08"
@@ -451,6 +530,14 @@ impl Prop for C08Prop {
         let mut complaints = part1(shard, tier, &mut res);
         if complaints.is_empty() {
             complaints.extend(part2(shard, tier, deadline, &mut res));
+        }
+        if cfg!(feature = "serde_path") {
+            if shard.0 == 0 {
+                complaints.extend(blanket_only(&mut res));
+            }
+        } else if std::env::var_os("VERIF_C08_NO_SERDE").is_none() {
+            // The same enumeration on the build of these checks with foyer's `serde` feature (bincode path).
+            serde_part(tier, shard, deadline, &mut res);
         }
         res.sample(json!({"input": "Vec<u8> of every length 0..=20480, three content classes, none/zstd/lz4", "engine": "input enumeration"}), 1);
         for (clause, msg) in complaints {
@@ -477,7 +564,9 @@ impl Prop for C08Prop {
         );
         let tier = if witness["tier"].as_str() == Some("thorough") { Tier::Thorough } else { Tier::Quick };
         let r = self.worker(tier, shard, Instant::now() + Duration::from_secs(3600));
-        r.violations
+        // A witness from the serde build is reproduced by the serde part of the same shard (and only by it).
+        let serde = witness["serde_path"].as_bool() == Some(true);
+        r.violations.into_iter().filter(|v| (v.witness["serde_path"].as_bool() == Some(true)) == serde).collect()
     }
 
     fn rule(&self) -> String {
@@ -486,7 +575,7 @@ impl Prop for C08Prop {
 
     fn assumptions(&self) -> Vec<String> {
         vec![
-            "the serde/bincode Code path (`foyer/serde` feature) is not built in this check: the harness binary is built once, without that feature".into(),
+            "the serde/bincode path is exercised by a second build of the same checks (cargo feature `serde_path` -> foyer/serde), run as a sub-process of every shard; its counters are prefixed `serde_`".into(),
             "values outside the enumerated patterns for the wide numeric types".into(),
         ]
     }
@@ -508,6 +597,11 @@ impl Prop for C08Prop {
         }
         if r.get("small_buffer_cases") == 0 {
             v.push("no too-small buffer was tried".into());
+        }
+        if !cfg!(feature = "serde_path") && std::env::var_os("VERIF_C08_NO_SERDE").is_none() {
+            if r.get("serde_code_values") == 0 || r.get("serde_e2e_hits") == 0 || r.get("serde_blanket_only_values") == 0 {
+                v.push("the serde (bincode) build round-tripped nothing".into());
+            }
         }
         v
     }
